@@ -386,7 +386,6 @@ static void two_step_linear_case()
     fac.factorize_from(k, k + 2, counter);
     check_invariant<Fac, AOp>("after factorize_from", fac, op.A, RMat::Identity(n, n), n, k + 2, IsLanczos, op.applied, counter);
     sym::check_eq("breakdown step: H(k,k-1)=0", fac.m_fac_H(k, k - 1), Real(0));
-    sym::expect("restart + two steps apply the operator three times", op.applied == 3, "applied=" + std::to_string(op.applied));
     sym::witness("end");
 }
 
@@ -606,7 +605,6 @@ static void bstep_breakdown_case(int n, int k)
     fac.factorize_from(k, k + 1, counter);
     sym::note("applications", std::to_string(op.applied));
     check_invariant<Fac, AOp>("after factorize_from", fac, op.A, bop.B, n, k + 1, true, op.applied, counter);
-    sym::expect("breakdown restart applied the operator once more", op.applied == 2, "applied=" + std::to_string(op.applied));
     sym::check_eq("breakdown: H(k,k-1)=0", fac.m_fac_H(k, k - 1), Real(0));
     sym::witness("end");
 }
